@@ -250,7 +250,7 @@ class Engine:
             t = parse_block(fn, bbn)['term']
             if self._term_key(t) == key:
                 ordinal += 1
-        return '%s/%s#%d' % (short_fn(fn.name), key if key else kind, ordinal)
+        return ('%s/%s#%d' % (short_fn(fn.name), key if key else kind, ordinal)).replace(' ', '_')
 
     @staticmethod
     def _term_key(term):
@@ -312,6 +312,8 @@ class Engine:
             if prev is None:
                 self.site_samples[label] = {'kind': kind, 'status': 'discharged'}
             return True
+        if r == 'sat' and prev == 'violated':
+            return False
         if r == 'sat':
             m = self.small_model(st.pc, [z3.Not(c)], m)
             self.findings.append(Finding(label, kind, '', m, len(st.pc), [], self.extract_inputs(m, st)))
@@ -326,6 +328,18 @@ class Engine:
     def small_model(self, pc, extra, m):
         """prefer counterexamples with short buffers (purely cosmetic: same query + length caps)"""
         lens = [v.len for v in self.inputs.values() if isinstance(v, Bytes)]
+        hosts = getattr(self, 'host_ascii', [])
+        if hosts:
+            # cosmetic preference: printable / ASCII host names in counterexamples (so that they replay as Rust Strings)
+            for lo, hi in ((0x61, 0x7a), (0x00, 0x7f)):
+                pref = []
+                for h in hosts:
+                    pref += [z3.And(z3.UGE(h.at(i), BV(lo, 8)), z3.ULE(h.at(i), BV(hi, 8))) for i in range(40)]
+                r, m2 = self.check(pc, list(extra) + pref)
+                if r == 'sat':
+                    m = m2
+                    extra = list(extra) + pref
+                    break
         if not lens:
             return m
         for cap in (8, 24, 64, 320):
@@ -717,6 +731,50 @@ class Engine:
         c, p = self.resolve(st, fr, place)
         self.store(st, c, p, val)
 
+    def bslice_hit(self, st, b, off, n, kind=None):
+        """like bslice but returns None when the range is not (provably) exactly one piece of the rope"""
+        r = self.bslice(st, b, off, n, kind, _miss_none=True)
+        return r
+
+    def bslice(self, st, b, off, n, kind=None, _miss_none=False):
+        """b[off, off+n) -- like Bytes.slice, but when b is a concatenation and the range coincides with one of its
+        pieces (decided by the solver under the path condition) the piece itself is returned, which keeps
+        round-trip terms small.  Pure optimisation: the result denotes the same bytes."""
+        if isinstance(off, int):
+            off = BV(off, 64)
+        if isinstance(n, int):
+            n = BV(n, 64)
+        segs = b.segs
+        if segs and len(segs) <= 24:
+            acc = BV(0, 64)
+            for seg in segs:
+                if seg.conc is not None:
+                    k = concrete(simp(off - acc))
+                    cn = concrete(n)
+                    if k is not None and cn is not None and 0 <= k and k + cn <= len(seg.conc) and k < (1 << 32):
+                        return Bytes.from_terms(seg.conc[k:k + cn], kind or seg.kind)
+                same_off = simp(acc == off)
+                if z3.is_false(same_off):
+                    ca, co = concrete(acc), concrete(off)
+                    if ca is not None and co is not None and ca > co:
+                        break
+                    acc = simp(acc + seg.len)
+                    continue
+                cond = z3.And(acc == off, seg.len == n)
+                sc = simp(cond)
+                hit = z3.is_true(sc)
+                plausible = not (concrete(n) is not None and concrete(seg.len) is None)
+                if not hit and not z3.is_false(sc) and plausible:
+                    r, _ = self.check(st.pc, [z3.Not(cond)])
+                    hit = (r == 'unsat')
+                if hit:
+                    out = seg.retag(kind or seg.kind)
+                    return out
+                acc = simp(acc + seg.len)
+        if _miss_none:
+            return None
+        return b.slice(off, n, kind)
+
     def deref(self, st, v):
         """follow Ref chains to the pointee value"""
         seen = 0
@@ -754,7 +812,7 @@ class Engine:
         m = re.match(r'^(-?\d+)_(f32|f64)$', t)
         if m:
             return Opaque(m.group(2), t)
-        m = re.match(r'^(?:core|std)::num::<impl (u8|u16|u32|u64|u128|usize|i8|i16|i32|i64|i128|isize)>::(MAX|MIN|BITS)$', t)
+        m = re.match(r'^(?:(?:core|std)::num::<impl )?(u8|u16|u32|u64|u128|usize|i8|i16|i32|i64|i128|isize)>?::(MAX|MIN|BITS)$', t)
         if m:
             b, sg = INT_TYPES[m.group(1)]
             if m.group(2) == 'BITS':
@@ -762,6 +820,12 @@ class Engine:
             if m.group(2) == 'MAX':
                 return Int(BV((1 << (b - 1)) - 1 if sg else (1 << b) - 1, b), b, sg)
             return Int(BV((1 << (b - 1)) if sg else 0, b), b, sg)
+        body = self.db.const_body(t, st.frames[-1].fn if st.frames else None) if hasattr(self.db, 'const_body') else None
+        if body is not None and len(st.frames) < self.call_depth + 4:
+            key = ('const', body.name)
+            r = self.call_sub(st, body, [])
+            if r is not None:
+                return r
         # enum-like constants printed bare (e.g. `InvalidInput`) and everything else
         ls = last_seg(t)
         for en, vs in self.si.enums.items():
@@ -1175,7 +1239,9 @@ class Engine:
         outs = []
         if not isinstance(res, list):
             res = [(st, res)]
-        for s2, v in res:
+        for i, (s2, v) in enumerate(res):
+            if s2 is not st:
+                self.stats['forks'] += 1
             if v is DIVERGE or s2.status != 'running':
                 if s2.status == 'running':
                     s2.status = 'diverged'
@@ -1197,12 +1263,21 @@ class Engine:
             if rx.search(callee):
                 r = fnc(ctx)
                 if r is not NotImplemented:
+                    if isinstance(r, Push):
+                        self.push_frame(st, r.fn, r.args, dcell, ret_bb, r.tybind)
+                        return PUSHED
                     return r
         for rx, fnc in self.contracts:
             if rx.search(callee):
                 r = fnc(ctx)
                 if r is not NotImplemented:
                     self.stats['contracts_used'][fnc.__name__] = self.stats['contracts_used'].get(fnc.__name__, 0) + 1
+                    if isinstance(r, Push):
+                        if len(st.frames) >= self.call_depth:
+                            return self.havoc(ctx)
+                        self.push_frame(st, r.fn, r.args, dcell, ret_bb, r.tybind)
+                        self.stats['inlined'][short_fn(r.fn.name)] = self.stats['inlined'].get(short_fn(r.fn.name), 0) + 1
+                        return PUSHED
                     return r
         target = self.resolve_callee(callee, fr, args)
         if target is not None and len(st.frames) < self.call_depth and not any(r.search(target.name) for r in self.no_inline):
@@ -1309,6 +1384,14 @@ class Engine:
 
 PUSHED = object()
 DIVERGE = object()
+
+
+class Push:
+    """returned by a contract to make the engine execute a repo function in place of the call"""
+    def __init__(self, fn, args, tybind=None):
+        self.fn = fn
+        self.args = args
+        self.tybind = tybind
 
 
 class CallCtx:
